@@ -7,18 +7,22 @@ import json, os, shutil, subprocess, sys, time
 
 src, sid, pids = sys.argv[1], sys.argv[2], sys.argv[3:]
 PY = "/venv/bin/python"
+# the change is applied to a scratch worktree of /repo's HEAD (outside /repo and /verif), never to /repo itself, and the
+# checks are pointed at it with GEOMETER_REPO; so a background sweep that uses /repo is not disturbed
+WT = "/tmp/wt/eval_" + sid
+subprocess.run(f"git -C /repo worktree remove --force {WT} 2>/dev/null; git -C /repo worktree add -q --detach {WT} HEAD", shell=True, check=True)
+ENV = dict(os.environ, GEOMETER_REPO=WT)
 
 
-def sh(cmd, cwd="/repo", timeout=1800):
-    p = subprocess.run(cmd, shell=True, cwd=cwd, capture_output=True, text=True, timeout=timeout)
+def sh(cmd, cwd=WT, timeout=1800):
+    p = subprocess.run(cmd, shell=True, cwd=cwd, capture_output=True, text=True, timeout=timeout, env=ENV)
     return p.returncode, (p.stdout + p.stderr)
 
 
 def clean():
-    sh("git checkout -- . && git status --short | grep -v '^??' ; true")
+    subprocess.run(f"git -C /repo worktree remove --force {WT}; git -C /repo worktree prune", shell=True)
 
 
-assert sh("git status --porcelain --untracked-files=no")[1].strip() == "", "/repo not clean"
 demo = os.path.join(src, "demo_test.py")
 rc0, out0 = sh(f"{PY} -m pytest -q -p no:cacheprovider {demo}")
 demo_clean_pass = rc0 == 0
@@ -51,7 +55,9 @@ meta = {
     },
     "checks_run_quick": checks,
     "detected_by": [p for p, c in checks.items() if c["exit"] == 1 and any(l.startswith("VIOLATION") for l in c["lines"])],
-    "ran": f"git -C /repo apply patch.diff; pytest (pinned suite); pytest demo_test.py; mc.run <pid> --tier quick; git -C /repo checkout -- .",
+    "ran": "scratch worktree of /repo HEAD under /tmp: git apply patch.diff; pytest (pinned suite); pytest demo_test.py; "
+           "GEOMETER_REPO=<worktree> mc.run <pid> --tier quick; worktree removed",
+    "repo_head": subprocess.run("git -C /repo rev-parse --short HEAD", shell=True, capture_output=True, text=True).stdout.strip(),
 }
 dst = os.path.join("/verif/seeded", sid)
 os.makedirs(dst, exist_ok=True)
